@@ -71,12 +71,14 @@ let () =
          let sa = va && in_scope ga and sb = vb && in_scope gb in
          let head = Printf.sprintf "valid=%c%c scope=%c%c dims=%d,%d" (b va) (b vb) (b sa) (b sb) (int_of_z dA) (int_of_z dB) in
          if not (sa && sb) then print_endline head else begin
-           let ms = List.map (fun r -> relate_oracle r ga gb) rules in
-           let m = List.hd ms in
+           (* the rule enters only through the boundary of lines (LocateDefs.loc_lines): without lines one evaluation serves all four *)
+           let nolines = lines_of ga = [] && lines_of gb = [] in
+           let m = relate_oracle Mod2 ga gb in
+           let ms = if nolines then [m; m; m; m] else m :: List.map (fun r -> relate_oracle r ga gb) (List.tl rules) in
            let mt = relate_oracle Mod2 gb ga in
            let eA = env_of ga and eB = env_of gb in
            let real = List.for_all (fun m -> realizable_b dA dB eA eB m) ms in
-           let sok = List.for_all (fun r -> side_ok r ga gb) rules in
+           let sok = List.for_all (fun r -> side_ok r ga gb) (if nolines then [Mod2] else rules) in
            let named = named_values dA dB m in
            let pl = if pats = "-" then [] else List.filter (fun s -> String.length s = 9) (String.split_on_char ',' pats) in
            let extra = Buffer.create 64 in
